@@ -40,7 +40,7 @@ V = 'abra_core/src/vm.rs'
 ARMS = ['GetField', 'SetField', 'GetIndex', 'SetIndex', 'ArrayPush', 'ArrayPop', 'ConstructStruct',
         'ConstructArray', 'ConstructVariant', 'DeconstructStruct', 'DeconstructArray',
         'DeconstructVariant', 'Duplicate', 'Pop', 'LoadOffset', 'StoreOffset', 'MakeClosure',
-        'ConcatStrings']
+        'ConcatStrings', 'ConstructChannel', 'ChannelWrite', 'ChannelRead']
 GC_FUNCS = ['maybe_gc', 'start_mark_phase', 'mark', 'process_gray', 'write_barrier', 'sweep']
 
 RSS_LIMIT_KB = 6 * 1024 * 1024
@@ -67,11 +67,19 @@ def _has_shared_drop():
     return bool(re.search(r'impl\s+Drop\s+for\s+VmSharedReadonly', S.read(V)))
 
 
+def _deepcopy_array_ok():
+    """Value::deep_copy's Array branch must go through get_array (C08 defect: it uses get_struct)."""
+    dc = S.method(V, r'impl Value \{', 'deep_copy')
+    m = re.search(r'ValueTag::Array\s*=>\s*\{(.*?)ValueTag::Variant', dc, re.S)
+    return bool(m) and 'get_struct' not in m.group(1)
+
+
 def build_crate(dirpath):
     with open(os.path.join(HERE, 'harness.rs')) as f:
         h = f.read()
     with open(os.path.join(HERE, 'exhaustive.rs')) as f:
         x = f.read().replace('__SHARED_HAS_DROP__', 'true' if _has_shared_drop() else 'false')
+        x = x.replace('__DEEPCOPY_ARRAY_OK__', 'true' if _deepcopy_array_ok() else 'false')
     info = vmk.build(dirpath, arms=ARMS, harness_src=h + "\n" + x)
     lib = os.path.join(dirpath, "src", "lib.rs")
     with open(lib) as f:
